@@ -143,6 +143,8 @@ class Built:
             o = self.mref(r[1]).diagonal()
         elif k == "rowslice":
             o = self.mref(r[1])[r[2], slice(r[3], r[4], r[5])]
+        elif k == "colslice":
+            o = self.mref(r[1])[slice(r[2], r[3], r[4]), r[5]]
         else:
             raise ValueError(k)
         self.cache[r] = o
@@ -341,8 +343,122 @@ def rand_bounds(rng):
     return rng.choice([(None, None), (0.0, None), (None, 2.5), (-1.0, 1.0), (0.0, 0.0)])
 
 
+# ---- label collisions: distinct views that carry the same name and length but hold different elements.
+# A slice view is named "{name}[{start or 0}:{stop or size}]" (step and direction are not part of the name), a
+# partial row "A[i,:]", a partial column "A[:,j]".  Identity, not the label, must decide "same source".
+
+
+def slice_collision_groups(n):
+    """groups of slices (a, b, s) of range(n) with equal label and equal length but pairwise different elements"""
+    groups = {}
+    bounds = [None] + list(range(-n, n + 1))
+    for a in bounds:
+        for b in bounds:
+            for st in (None, 1, 2, 3, -1, -2):
+                idx = tuple(range(n)[slice(a, b, st)])
+                if not idx:
+                    continue
+                key = (a or 0, b or n, len(idx))
+                groups.setdefault(key, {}).setdefault(idx, (a, b, st))
+    return [list(g.values()) for g in groups.values() if len(g) >= 2]
+
+
+def collision_views(rng, n, rows, cols):
+    """2..3 views with the same label and length and different elements, over x (size n) or A (rows x cols)"""
+    c = rng.random()
+    if c < 0.6 or cols < 2:
+        gs = slice_collision_groups(n)
+        if gs:
+            g = rng.choice(gs)
+            return [["slice", "x", *t] for t in rng.sample(g, min(len(g), rng.choice([2, 2, 3])))]
+    if c < 0.8 and cols >= 2:
+        i = rng.randint(0, rows - 1)
+        gs = slice_collision_groups(cols)
+        g = rng.choice(gs)
+        # every partial row is labelled "A[i,:]": any two slices of equal length collide
+        k = rng.randint(1, cols - 1)
+        cands = [(a, a + k, None) for a in range(0, cols - k + 1)] + [(cols - 1, cols - 1 - k if cols - 1 - k >= 0 else None, -1)]
+        cands = [t for t in cands if len(range(cols)[slice(*t)]) == k]
+        if len(cands) >= 2:
+            return [["rowslice", ["mat", "A"], i, *t] for t in rng.sample(cands, 2)]
+        return [["rowslice", ["mat", "A"], i, *t] for t in rng.sample(g, 2)]
+    if rows >= 2:
+        j = rng.randint(0, cols - 1)
+        k = rng.randint(1, rows - 1)
+        cands = [(a, a + k, None) for a in range(0, rows - k + 1)]
+        if len(cands) >= 2:
+            return [["colslice", ["mat", "A"], *t, j] for t in rng.sample(cands, 2)]
+    g = rng.choice(slice_collision_groups(n))
+    return [["slice", "x", *t] for t in rng.sample(g, 2)]
+
+
+def vector_only_term(rng, v, views):
+    """a term the single-vector shortcut understands (no scalar element variables)"""
+    c = rng.random()
+    if c < 0.2:
+        return ["vsum", v]
+    if c < 0.35:
+        return ["lc", v]
+    if c < 0.5:
+        return ["dotself", v]
+    if c < 0.6:
+        return ["ps", v, rng.choice([2, 3])]
+    if c < 0.7:
+        return ["us", v, rng.choice(["abs", "sin"])]
+    if c < 0.85:
+        w = rng.choice([u for u in views if u != v] or views)
+        return ["dot", v, w]
+    if c < 0.93:
+        return ["mul", 2.0, ["vsum", v]]
+    return ["sub", ["lc", v], ["const", 3.0]]
+
+
+def gen_collision_spec(rng):
+    n = rng.randint(3, 9)
+    rows, cols = rng.randint(1, 4), rng.randint(2, 5)
+    decls = [["vec", "x", n, *rand_bounds(rng)], ["mat", "A", rows, cols, False, *rand_bounds(rng)], ["param", "p", 1.5]]
+    views = collision_views(rng, n, rows, cols)
+    order = list(views)
+    rng.shuffle(order)
+    obj = [vector_only_term(rng, order[0], views) for _ in range(rng.randint(1, 2))]
+    cons = []
+    for v in order[1:] + ([rng.choice(views)] if rng.random() < 0.4 else []):
+        cons.append([vector_only_term(rng, v, views), rng.choice(["<=", ">=", "=="]), rng.choice([1.0, 0, 2.5])])
+    if rng.random() < 0.3:
+        obj.append(["param", "p"])
+    return {"kind": "collision", "decls": decls, "objective": obj, "constraints": cons, "maximize": rng.random() < 0.3}
+
+
+def collision_cover():
+    """one spec per collision shape × where the second view is mentioned (objective term / constraint / dot)"""
+    out = []
+
+    def mk(decls, u, v):
+        out.append({"kind": "collision", "decls": decls, "objective": [["vsum", u]], "constraints": [[["vsum", v], "<=", 1.0]]})
+        out.append({"kind": "collision", "decls": decls, "objective": [["vsum", u], ["lc", v]], "constraints": []})
+        out.append({"kind": "collision", "decls": decls, "objective": [["dot", u, v]], "constraints": []})
+        out.append({"kind": "collision", "decls": decls, "objective": [["dotself", v]],
+                    "constraints": [[["dot", v, u], ">=", 0], [["ps", u, 2], "<=", 4.0], [["us", v, "abs"], "<=", 4.0]]})
+        out.append({"kind": "collision", "decls": decls, "objective": [["lc", u]],
+                    "constraints": [[["lc", u], "<=", 1.0], [["mul", 2.0, ["vsum", v]], "==", 1.0]]})
+    for sidx in (1, 2, 3):                                   # x[s::-1] vs x[s:n], n = 2s + 1: both "x[s:n]", size s + 1
+        n = 2 * sidx + 1
+        mk([["vec", "x", n, 0.0, None]], ["slice", "x", sidx, None, -1], ["slice", "x", sidx, n, None])
+        mk([["vec", "x", n, None, None]], ["slice", "x", sidx, None, None], ["slice", "x", sidx, None, -1])
+    mk([["vec", "y", 4, None, 2.5]], ["slice", "y", 0, 4, 2], ["slice", "y", 0, 4, 3])          # (y0,y2) vs (y0,y3)
+    mk([["vec", "y", 7, None, None]], ["slice", "y", 0, 6, 3], ["slice", "y", 0, 6, 5])
+    mk([["vec", "y", 6, None, None]], ["slice", "y", -1, 0, -3], ["slice", "y", -1, 0, -4])
+    mk([["mat", "A", 2, 4, False, 0.0, 1.0]], ["rowslice", ["mat", "A"], 0, 0, 2, None], ["rowslice", ["mat", "A"], 0, 2, 4, None])
+    mk([["mat", "A", 2, 4, False, None, None]], ["rowslice", ["mat", "A"], 1, 0, 3, None], ["rowslice", ["mat", "A"], 1, 3, 0, -1])
+    mk([["mat", "A", 4, 2, False, None, None]], ["colslice", ["mat", "A"], 0, 2, None, 1], ["colslice", ["mat", "A"], 2, 4, None, 1])
+    mk([["mat", "A", 3, 3, False, None, None]], ["rowslice", ["T", ["mat", "A"]], 0, 0, 2, None], ["rowslice", ["T", ["mat", "A"]], 0, 1, 3, None])
+    return out
+
+
 def gen_spec(rng, force=None):
-    kind = force or rng.choice(["shortcut", "shortcut", "nearmiss", "general", "general", "general"])
+    kind = force or rng.choice(["shortcut", "shortcut", "nearmiss", "general", "general", "general", "collision"])
+    if kind == "collision":
+        return gen_collision_spec(rng)
     n = rng.randint(1, 12)
     lbx, ubx = rand_bounds(rng)
     decls = [["vec", "x", n, lbx, ubx], ["vec", "y2", rng.randint(1, 4), *rand_bounds(rng)],
@@ -530,10 +646,11 @@ def run(ctx) -> core.Report:
     rng = ctx["rng"]
     thorough = ctx["tier"] == "thorough" or ctx["escalate"]
     rep = core.Report(rule="fixed specs (F17, F18, digit runs, stepped / reversed slices, symmetric and transposed matrices, no objective, "
-                           "constants only) + seeded random problem specs; each built in several construction orders in-process and "
+                           "constants only) + label-collision family (distinct views with equal name and length, different elements, "
+                           "inside the single-vector shortcut) + seeded random problem specs; each built in several construction orders in-process and "
                            "under several PYTHONHASHSEEDs; non-trivial = distinct specs with at least two variables")
     n_rand = 6000 if thorough else 700
-    specs = [dict(s) for s in FIXED_SPECS] + [gen_spec(rng) for _ in range(n_rand)]
+    specs = [dict(s) for s in FIXED_SPECS] + collision_cover() + [gen_spec(rng) for _ in range(n_rand)]
     orders = [0, 1, 2, 3] if not thorough else [0, 1, 2, 3, 4, 5]
     hashseeds = [0, 1, 2] if not thorough else [0, 1, 2, 3, 4, 5, 6, 7]
 
